@@ -4,6 +4,7 @@ import os
 from concurrent.futures import ThreadPoolExecutor
 
 import common
+import tuneresult
 import trace
 from common import CheckError
 
@@ -13,6 +14,8 @@ SPECDIR = os.path.join(common.SPEC, "tuner")
 
 def run(rep, tier):
     work = common.workdir("C13")
+    # the tuning book-keeping (ml::result_t): TuneResult.tla, every edge replayed on the real object
+    tuneresult.run(rep, "C13", tier)
     cfgs = [("Tuner", "Tuner_q_local.cfg", 4), ("Tuner", "Tuner_q_surrogate.cfg", 4), ("Tuner", "Tuner_q_1d.cfg", 2),
             ("Tuner", "Tuner_q_3d.cfg", 2), ("MLTune", "MLTune_mc.cfg", 2)]
     if tier == "thorough":
